@@ -419,6 +419,38 @@ TRIAL_FILE = os.path.join(os.path.dirname(os.path.abspath(__file__)), "frozen_tr
 BOUNDED = ("with_infinite_width", "with_simple_heuristics")
 
 
+def _chain_of(f, a, depth=0):
+    """names of the Shape methods the operand derives from, through the receiver of each call and - for a shape captured by a
+    closure (`let trial_shape = shape.with_infinite_width(); xs.map(|x| format(ctx, x, trial_shape))`) - through the closure
+    aggregate in the enclosing function"""
+    out = set()
+    if depth > 4:
+        return out
+    stack, seen = [a], set()
+    while stack:
+        o = stack.pop()
+        for r in provenance(f, o, through=None, into_aggs=False):
+            if r[0] == "call" and r[2] not in seen:
+                seen.add(r[2])
+                out.add(r[1].split("::")[-1])
+                t2 = f.blocks[r[2]]["term"]
+                if t2["args"] and not is_const(t2["args"][0]):
+                    stack.append(t2["args"][0])
+            elif r[0] == "upvar" and f.kind == "Closure":
+                par = f.prog.fn(f.crate, f.path.rsplit("::{closure", 1)[0])
+                try:
+                    idx = int(r[1])
+                except (TypeError, ValueError):
+                    idx = None
+                if par is not None and idx is not None:
+                    for b_, si_, s_ in par.stmts():
+                        if s_["k"] == "assign" and s_["rv"]["k"] == "agg" and s_["rv"].get("closure") == f.path and idx < len(s_["rv"]["ops"]):
+                            op_ = s_["rv"]["ops"][idx]
+                            if not is_const(op_):
+                                out |= _chain_of(par, op_, depth + 1)
+    return out
+
+
 def _shape_chain(f, t):
     out = set()
     for a in t["args"]:
@@ -426,16 +458,7 @@ def _shape_chain(f, t):
             continue
         if not f.local_ty(op_place(a)["l"]).replace("&", "").endswith("shape::Shape"):
             continue
-        stack, seen = [a], set()
-        while stack:
-            o = stack.pop()
-            for r in provenance(f, o, through=None, into_aggs=False):
-                if r[0] == "call" and r[2] not in seen:
-                    seen.add(r[2])
-                    out.add(r[1].split("::")[-1])
-                    t2 = f.blocks[r[2]]["term"]
-                    if t2["args"] and not is_const(t2["args"][0]):
-                        stack.append(t2["args"][0])
+        out |= _chain_of(f, a)
     return out
 
 
